@@ -4,7 +4,8 @@ Every check calls ensure(variant); objects are cached under
 /verif/.build/<hash of SRC+CBLAS+flags>/<variant>/ so an unchanged tree is
 compiled once and an edited tree is always recompiled.
 """
-import hashlib, os, subprocess, sys, shutil, glob, time
+import hashlib, os, subprocess, sys, shutil, glob, time, threading
+_LOCK = threading.RLock()
 from concurrent.futures import ThreadPoolExecutor
 
 VERIF = os.path.dirname(os.path.dirname(os.path.abspath(__file__)))
@@ -62,6 +63,11 @@ def _prune_old(keep):
 
 def ensure(variant="verif", quiet=True):
     """Return (libpath, cc, cflags list for harness compilation)."""
+    with _LOCK:
+        return _ensure(variant, quiet)
+
+
+def _ensure(variant, quiet):
     cc, flags, seams = VARIANTS[variant]
     th = tree_hash()
     out = os.path.join(BUILD, th, variant)
@@ -103,6 +109,11 @@ def ensure(variant="verif", quiet=True):
 
 def harness(name, sources, variant="verif", defines=(), extra_link=(), wrap=()):
     """Compile and link a harness program against the given library variant."""
+    with _LOCK:
+        return _harness(name, sources, variant, defines, extra_link, wrap)
+
+
+def _harness(name, sources, variant, defines, extra_link, wrap):
     lib, cc, cflags = ensure(variant)
     out = os.path.join(os.path.dirname(lib), name)
     srcs = [s if os.path.isabs(s) else os.path.join(HARNESS, s) for s in sources]
@@ -116,6 +127,7 @@ def harness(name, sources, variant="verif", defines=(), extra_link=(), wrap=()):
     r = subprocess.run(cmd, capture_output=True, text=True)
     if r.returncode != 0:
         raise RuntimeError("harness build failed: %s\n%s" % (" ".join(cmd), r.stderr[-4000:]))
+    os.chmod(out + ".tmp", 0o755)
     os.replace(out + ".tmp", out)
     return out
 
